@@ -368,6 +368,25 @@ class PE:
                 continue
             if isinstance(s, ast.Pass):
                 continue
+            if isinstance(s, (ast.Continue, ast.Break)):
+                return Result("continue" if isinstance(s, ast.Continue) else "break", None, s, self.env)
+            if isinstance(s, ast.For) and not s.orelse:
+                it = self.ev(s.iter)
+                if not (isinstance(it, K) and isinstance(it.v, (list, tuple))):
+                    self.err("loop over a value the scenario does not fix: %s" % ast.unparse(s.iter)[:60], s)
+                stop = None
+                for item in list(it.v):
+                    self.store(s.target, item if isinstance(item, (RF, K)) else K(item), s)
+                    r = self.run(s.body)
+                    if r is None or r.kind == "continue":
+                        continue
+                    if r.kind == "break":
+                        break
+                    stop = r
+                    break
+                if stop is not None:
+                    return stop
+                continue
             if isinstance(s, ast.Expr):
                 if self.on_expr is not None:
                     self.on_expr(self, s)
